@@ -36,11 +36,9 @@ def acceptConv (S T : Ty) (v : Val) (a : ConvAnswer) : Bool :=
 
 def knownClassNonfinite : String := "nonfinite-double-to-float-overflow"
 
-/-- the recorded deviation (see `nonfiniteReported`) -/
-def knownConv (S T : Ty) (v : Val) (a : ConvAnswer) : Bool :=
-  match S, v with
-  | .flt F, .flt b => nonfiniteReported F T b a
-  | _, _ => false
+/-- recorded deviations of the conversion: none at present (the class `nonfinite-double-to-float-overflow` was repaired:
+    `Spec.nonfiniteReported` describes what the unrepaired code did and is kept for the regression witness only) -/
+def knownConv (_S _T : Ty) (_v : Val) (_a : ConvAnswer) : Bool := false
 
 /-- acceptance including the recorded deviation (used to recognise it through TryTo / ConvertByPolicy) -/
 def acceptConvOrKnown (S T : Ty) (v : Val) (a : ConvAnswer) : Bool := acceptConv S T v a || knownConv S T v a
